@@ -103,18 +103,29 @@ def build_model(spec):
 
 
 class Analysis(af.Analysis):
-    def __init__(self, label="a"):
+    def __init__(self, label="a", latent=False, hdu=False):
         self.label = label
+        self.latent = latent
+        self.hdu = hdu
+
+    def compute_latent_variables(self, instance):
+        if not self.latent:
+            raise NotImplementedError()
+        vals = [v for _, v in leaves(instance)]
+        return {"lat_sum": float(sum(vals)), "lat_first": float(vals[0]) if vals else 0.0}
 
     def log_likelihood_function(self, instance):
         return 0.0
 
     def save_attributes(self, paths):
         import numpy as np
-        paths.save_json("attr", {"label": self.label})
+        paths.save_json("attr_" + self.label, {"label": self.label})     # a different file name per analysis
         paths.save_json("deep", {"label": self.label, "x": [1, 2.5]}, prefix="sub")   # files/sub/deep.json
         paths.save_object("obj", {"label": self.label, "t": (1, 2)})                  # files/obj.pickle
         paths.save_array("arr", np.array([[1.0, 2.0], [3.0, 4.5]]))                   # files/arr.csv
+        if self.hdu:
+            from astropy.io import fits
+            paths.save_fits("img", fits.PrimaryHDU(np.array([[1.0, 2.0], [3.0, 4.0]])))       # files/img.fits
 
 
 REAL = {
@@ -239,6 +250,13 @@ def canon_samples(samples):
     return rows
 
 
+def latent_rows(ls):
+    if ls is None:
+        return None
+    return sorted([sorted([str(k) if isinstance(k, str) else ".".join(map(str, k)), hexf(v)] for k, v in s.kwargs.items()), hexf(s.log_likelihood)]
+                  for s in ls.sample_list)
+
+
 def canon_fit(fit):
     def guard(fn):
         try:
@@ -264,6 +282,8 @@ def canon_fit(fit):
         "json_digest": {j.name: digest(j.dict) for j in fit.jsons},
         "pickles": sorted(p.name for p in fit.pickles),
         "pickle_digest": {p.name: guard(lambda p=p: digest(repr(p.value))) for p in fit.pickles},
+        "latent": guard(lambda: latent_rows(fit.latent_samples)),
+        "hdus": guard(lambda: {h.name: digest(h.hdu.data.tolist()) for h in fit.hdus}),
         "arrays": sorted(a.name for a in fit.arrays),
         "array_digest": {a.name: guard(lambda a=a: digest([[float(x) for x in row] for row in a.array.tolist()] if a.array.ndim == 2 else a.array.tolist())) for a in fit.arrays},
         "best_fit": guard(lambda: fit.best_fit.id) if fit.is_grid_search and fit.children else None,
@@ -356,6 +376,22 @@ def inspect_dir(root):
                 e["search_keys"] = sorted(sj.get("arguments", {}).keys())
                 e["search_name"] = sj.get("arguments", {}).get("name")
                 e["search_tag"] = sj.get("arguments", {}).get("unique_tag")
+            lp = os.path.join(fp, "latent", "samples.csv")
+            if os.path.exists(lp) and os.path.exists(os.path.join(fp, "latent", "samples_info.json")):
+                with open(lp) as fh:
+                    lrows = list(csv.reader(fh))
+                lh = [h.strip() for h in lrows[0]]
+                e["latent"] = sorted([sorted([h, hexf(float(v))] for h, v in zip(lh, r_) if h not in ("log_likelihood", "log_prior", "log_posterior", "weight")),
+                                      hexf(float(dict(zip(lh, r_))["log_likelihood"]))] for r_ in lrows[1:])
+            e["hdu_digests"] = {}
+            for rel_ in e["files"]:
+                if rel_.endswith(".fits"):
+                    try:
+                        from astropy.io import fits as _fits
+                        with _fits.open(os.path.join(fp, rel_)) as hd_:
+                            e["hdu_digests"][os.path.splitext(rel_)[0].replace(os.sep, ".")] = digest(hd_[0].data.tolist())
+                    except Exception:  # noqa
+                        e["hdu_digests"][os.path.splitext(rel_)[0].replace(os.sep, ".")] = "unreadable"
             e["pickle_digests"] = {}
             e["array_digests"] = {}
             for rel_ in e["files"]:
@@ -388,8 +424,9 @@ def inspect_dir(root):
                 af_ = os.path.join(ap, a, "files")
                 names = sorted(os.listdir(af_)) if os.path.isdir(af_) else []
                 label = None
-                if "attr.json" in names:
-                    label = json.load(open(os.path.join(af_, "attr.json"))).get("label")
+                for n_ in names:
+                    if n_.startswith("attr_") and n_.endswith(".json"):
+                        label = json.load(open(os.path.join(af_, n_))).get("label")
                 dig = {}
                 if os.path.isdir(af_):
                     for dd_, _, ff_ in os.walk(af_):
@@ -519,7 +556,7 @@ def run_fit(f, session=None):
     search = build_search(f, session=session)
     n_an = f.get("n_analyses", 1)
     if f["search"]["cls"] == "Scripted":
-        analysis = Analysis("a0")
+        analysis = Analysis("a0", latent=bool(f.get("latent")), hdu=bool(f.get("hdu")))
         for i in range(1, n_an):
             analysis = analysis + Analysis("a%d" % i)
     else:
@@ -602,12 +639,23 @@ def run_fit(f, session=None):
     return rec
 
 
+def load_directory(agg, directory, c):
+    """the call a user makes: the keyword is passed only when it differs from the documented default"""
+    if c.get("completed_only", False):
+        agg.add_directory(directory, completed_only=True)
+    else:
+        agg.add_directory(directory)
+
+
 def scenario(c, idx):
     root = os.path.join(SCRATCH, "sc%d" % idx)
     out = os.path.join(root, "output")
     os.makedirs(out, exist_ok=True)
     conf.instance.push(new_path=CFG, output_path=out)
     res = {"fits": [], "scrape": None, "direct": None}
+    import numpy as np
+    seed = int(hashlib.sha1(json.dumps([f["name"] for f in c["fits"]] + [c.get("seed", 0)]).encode()).hexdigest()[:8], 16)
+    np.random.seed(seed)
     for f in c["fits"]:
         res["fits"].append(run_fit(f))
     for cp in c.get("copies", []):
@@ -632,20 +680,34 @@ def scenario(c, idx):
     # route 1: scrape
     db1 = os.path.join(root, "scraped.sqlite")
     sc = {"exc": None}
-    try:
-        with Quiet():
-            agg = af.Aggregator.from_database(db1)
-            agg.add_directory(out, completed_only=bool(c.get("completed_only", False)))
-            top = sorted(f.id for f in agg.fits)
-            gs_ids = sorted(f.id for f in agg.grid_searches().fits)
-            best = sorted(f.id for f in agg.grid_searches().best_fits().fits)
-            agg.session.close()
-        sc["top_level"] = top
-        sc["grid_searches"] = gs_ids
-        sc["best_fits"] = best
-    except BaseException as e:  # noqa
-        sc["exc"] = exc_name(e)
-        sc["msg"] = str(e)[:300]
+
+    def one_load(directory):
+        st = {"exc": None}
+        try:
+            with Quiet():
+                agg = af.Aggregator.from_database(db1)
+                try:
+                    load_directory(agg, directory, c)
+                    st["top_level"] = sorted(f.id for f in agg.fits)
+                    st["grid_searches"] = sorted(f.id for f in agg.grid_searches().fits)
+                    st["best_fits"] = sorted(f.id for f in agg.grid_searches().best_fits().fits)
+                finally:
+                    agg.session.close()
+        except BaseException as e:  # noqa
+            st["exc"] = exc_name(e)
+            st["msg"] = str(e)[:300]
+        return st
+
+    if c.get("two_dirs"):
+        first = one_load(os.path.join(out, "A"))
+        try:
+            first["fits"] = dump_db(db1)
+        except BaseException as e:  # noqa
+            first["fits"] = []
+        sc = one_load(os.path.join(out, "B"))
+        sc["first"] = first
+    else:
+        sc = one_load(out)
     try:
         sc["fits"] = dump_db(db1)
     except BaseException as e:  # noqa
@@ -668,7 +730,7 @@ def scenario(c, idx):
             from autofit.database import open_database
             session = open_database(db2)
             for f in c["fits"]:
-                if f.get("n_analyses", 1) > 1 or f.get("prefit"):
+                if (f.get("n_analyses", 1) > 1 and f["scripts"][0].get("interrupt")) or f.get("prefit"):
                     # combined analyses through a session create their own kind of child fits: not compared
                     dr["fits_run"].append({"skipped": True})
                     continue
